@@ -102,6 +102,15 @@ def _trafo_py(T):
     raise ValueError(k)
 
 
+def _tm(x):
+    """a time of a recipe as the real code gets it: a float when it is a binary fraction (exact), else an exact TimeType"""
+    q = F(x)
+    if q.denominator & (q.denominator - 1) == 0:
+        return float(q)
+    from qupulse.utils.types import TimeType
+    return TimeType.from_fraction(q.numerator, q.denominator)
+
+
 def py_build(r):
     """Build the real waveform object a recipe describes (fresh objects on every call)."""
     import numpy as np
@@ -111,17 +120,17 @@ def py_build(r):
     k = r[0]
     if k == 'table':
         strat = {'h': I.HoldInterpolationStrategy(), 'l': I.LinearInterpolationStrategy(), 'j': I.JumpInterpolationStrategy()}
-        entries = [(float(F(t)), float(F(v)), strat[i]) for t, v, i in r[3]]
+        entries = [(float(F(t)), float(F(v)), strat[i]) for t, v, i in r[3]]   # entry times are floats (as TablePT hands them over)
         if r[1]:
             w = W.TableWaveform.from_table(CH[r[2]], entries)
         else:
             w = W.TableWaveform(CH[r[2]], tuple(W.TableWaveformEntry(*e) for e in entries))
     elif k == 'const':
-        w = W.ConstantWaveform(float(F(r[1])), float(F(r[2])), CH[r[3]])
+        w = W.ConstantWaveform(_tm(r[1]), float(F(r[2])), CH[r[3]])
     elif k == 'func':
         coef = [float(F(x)) for x in r[1]]
         expr = ' + '.join('%r*t**%d' % (a, i) for i, a in enumerate(coef)) or '0'
-        w = W.FunctionWaveform(ExpressionScalar(expr), float(F(r[2])), CH[r[3]])
+        w = W.FunctionWaveform(ExpressionScalar(expr), _tm(r[2]), CH[r[3]])
     elif k == 'seq':
         subs = [py_build(x) for x in r[2]]
         w = W.SequenceWaveform.from_sequence(subs) if r[1] else W.SequenceWaveform(subs)
@@ -210,7 +219,10 @@ def _cvjson(v):
 def run_impl(case):
     import numpy as np
     k = case['kind']
-    if k == 'sample':
+    if k == 'dec':
+        _STATS['inexact_cases'] += 1
+        _STATS['inexact_samples'] += 2 * len(case['grid']) * len(case['chans'])
+    if k in ('sample', 'dec'):
         b = _guard(lambda: py_build(case['r']))
         if b[0] != 'ok':
             return _sres(b) if b[0] == 'err' else {'crash': str(b)}
@@ -424,7 +436,7 @@ def to_coq(case, obs):
     if 'crash' in obs or 'hang' in obs:
         return 'CCrash'
     k = case['kind']
-    if k == 'sample':
+    if k in ('sample', 'dec'):
         if 'err' in obs:
             o = '(OErr %s)' % obs['err']
         else:
@@ -433,7 +445,7 @@ def to_coq(case, obs):
                                                           'None' if p['us'] is None else '(Some %s)' % g_sres(p['us'])),
                         b['per'])
             o = '(OBuilt %s %s %s)' % (glist(gch, b['chs']), gq(b['dur']), per)
-        return '(CSample %s %s %s)' % (g_recipe(case['r']), glist(gq, case['grid']), o)
+        return '(%s %s %s %s)' % ('CDec' if k == 'dec' else 'CSample', g_recipe(case['r']), glist(gq, case['grid']), o)
     if k == 'eq':
         if not obs['built']:
             return '(CEq %s %s false false None)' % (g_recipe(case['r1']), g_recipe(case['r2']))
@@ -832,6 +844,134 @@ def exhaustive_small(tier):
     return res
 
 
+# ---------------------------------------------------------------------------------------------------------------------
+# decimal stream: durations k/10, k/3, k/5 ... (exact TimeType, NOT binary fractions); grid points exactly on every
+# junction, handed to the code as the correctly rounded doubles of the exact rationals.  Floating point is not exact
+# here: values are compared under the declared absolute tolerance 2^-30 (Corr.v `tol`) and these cases are counted apart
+# (`inexact_cases`).  Which piece answers a junction must still be exact: every generated ramp ends at a value at least
+# 1/2 away from where it (and the next piece) starts, a wrong piece is off by far more than the tolerance.
+
+_STATS = {'inexact_cases': 0, 'inexact_samples': 0}
+DEC_FAMILIES = [(10, [1, 1, 3, 7, 11, 2, 9]), (3, [1, 1, 2, 4]), (5, [1, 2, 3]), (6, [1, 5]), (7, [1, 2]), (100, [7, 11, 33])]
+
+
+def dec_leaf(rng, c, d, den):
+    """a leaf of duration d (a multiple of 1/den) whose start and end values differ.  Tables get their entry times as
+    floats, so their duration is exact only for decimal fractions (den 5, 10, 100); for thirds, sixths and sevenths the
+    leaves are function waveforms (ramps a + b*t) and constants with an exact TimeType duration"""
+    r = rng.random()
+    v0 = rng.choice(VOLT)
+    v1 = rng.choice([v for v in VOLT if abs(v - v0) >= 1])
+    tables_ok = den in (5, 10, 100)
+    if not tables_ok:
+        if r < 0.85:
+            slope = rng.choice([F(1), F(-1), F(2), F(-3), F(5)]) * max(1, den // max(1, int(d * den)))
+            return ['func', [fs(v0), fs(slope)], fs(d), c]
+        return ['const', fs(d), fs(v0), c]
+    if r < 0.55:
+        return ['table', rng.random() < 0.5, c, [['0', fs(v0), 'h'], [fs(d), fs(v1), 'l']]]
+    k = int(d * den)
+    if r < 0.7 and k >= 2:
+        j = rng.randint(1, k - 1)
+        v2 = rng.choice([v for v in VOLT if abs(v - v0) >= 1])
+        return ['table', rng.random() < 0.5, c, [['0', fs(v0), 'h'], [fs(F(j, den)), fs(v1), rng.choice('lh')],
+                                                 [fs(d), fs(v2), rng.choice('lj')]]]
+    if r < 0.82:
+        return ['func', [fs(v0), fs(rng.choice([F(1), F(-1), F(2), F(-3), F(5)]) * 4)], fs(d), c]
+    if r < 0.92:
+        return ['table', rng.random() < 0.5, c, [['0', fs(v0), 'h'], [fs(d), fs(v1), 'j']]]
+    return ['const', fs(d), fs(v0), c]
+
+
+def dec_wf(rng, c, den, ks, depth):
+    """-> (recipe, duration): repetitions (count 3..10) and sequences of leaves with decimal durations"""
+    if depth <= 0:
+        d = F(rng.choice(ks), den)
+        return dec_leaf(rng, c, d, den), d
+    k = rng.choice(['rep', 'rep', 'seq', 'seq', 'leaf'])
+    opt = rng.random() < 0.5
+    if k == 'leaf':
+        return dec_wf(rng, c, den, ks, 0)
+    if k == 'rep':
+        b, d = dec_wf(rng, c, den, ks, depth - 1)
+        n = rng.choice([3, 4, 4, 5, 6, 7, 10]) if depth == 1 else rng.choice([2, 3, 4])
+        return ['rep', opt, b, n], d * n
+    parts = [dec_wf(rng, c, den, ks, depth - 1) for _ in range(rng.randint(2, 4 if depth == 1 else 3))]
+    return ['seq', opt, [p[0] for p in parts]], sum((p[1] for p in parts), F(0))
+
+
+def dec_junctions(r, start, out):
+    """all piece boundaries (absolute times) inside r, returns the duration"""
+    k = r[0]
+    if k == 'table':
+        for e in r[3][1:-1]:
+            out.add(start + F(e[0]))
+        return F(r[3][-1][0])
+    if k in ('const',):
+        return F(r[1])
+    if k == 'func':
+        return F(r[2])
+    if k == 'seq':
+        t = start
+        for x in r[2]:
+            out.add(t)
+            t += dec_junctions(x, t, out)
+        return t - start
+    if k == 'rep':
+        t = start
+        for _ in range(r[3]):
+            out.add(t)
+            t += dec_junctions(r[2], t, out)
+        return t - start
+    if k == 'multi':
+        return max(dec_junctions(x, start, out) for x in r[2])
+    if k == 'arith':
+        dec_junctions(r[4], start, out)
+        return dec_junctions(r[2], start, out)
+    if k in ('functor', 'trans', 'rep'):
+        return dec_junctions(r[2], start, out)
+    if k in ('neg', 'subset', 'getsubset'):
+        return dec_junctions(r[1], start, out)
+    raise ValueError(k)
+
+
+def gen_dec_cases(rng, tier):
+    out = []
+    for _ in range({'quick': 160, 'thorough': 2500}[tier]):
+        den, ks = rng.choice(DEC_FAMILIES)
+        r, dur = dec_wf(rng, 1, den, ks, rng.choice([1, 1, 1, 1, 2, 2, 3]))
+        chans = [1]
+        wrap = rng.random()
+        if wrap < 0.2:
+            other = rng.choice([['const', fs(dur), fs(rng.choice(VOLT)), 2], dec_leaf(rng, 2, dur, den)])
+            r, chans = ['multi', rng.random() < 0.5, [r, other]], [1, 2]
+        elif wrap < 0.3:
+            r = ['arith', rng.random() < 0.5, r, rng.choice('+-'), dec_leaf(rng, 1, dur, den)]
+        elif wrap < 0.38:
+            r = ['functor', rng.random() < 0.5, r, [[1, rng.choice(['neg', 'abs'])]]]
+        elif wrap < 0.46:
+            r = ['trans', rng.random() < 0.5, r, [rng.choice(['scale', 'offset']), [[1, ['c', rng.choice(['2', '-1', '1/2'])]]]]]
+        js = set()
+        dec_junctions(r, F(0), js)
+        js = sorted(t for t in js | {F(0)} if t < dur)
+        mids = [(a + b) / 2 for a, b in zip(js, js[1:] + [dur])]
+        if len(js) > 48:
+            keep = set(rng.sample(js, 48)) | {F(0)}
+            js = [t for t in js if t in keep]
+        grid = sorted(set(js) | set(rng.sample(mids, min(len(mids), 12))))
+        out.append({'kind': 'dec', 'grid_kind': 'dec', 'r': r, 'grid': [fs(t) for t in grid], 'chans': chans, 'dur': fs(dur)})
+    return out
+
+
+def extra_evidence(ctx):
+    return {'inexact_cases': _STATS['inexact_cases'], 'inexact_samples_compared': _STATS['inexact_samples'],
+            'inexact_tolerance_abs': '2^-30',
+            'inexact_note': 'decimal stream (kind dec): durations k/10, k/3, k/5, k/6, k/7, k/100 as exact TimeType, grid '
+                            'points on every junction (correctly rounded doubles of the exact rationals); binary64 samples '
+                            'are compared with the exact rational model and with the denotation under the absolute '
+                            'tolerance; every other case is compared exactly'}
+
+
 def gen_cases(rng, tier, ctx):
     n_wf = {'quick': 260, 'thorough': 4000}[tier]
     cases = []
@@ -918,7 +1058,30 @@ def gen_cases(rng, tier, ctx):
     for r in history_seeds():
         cases.append({'kind': 'hist', 'r': r, 'ops': [['set', 0, ['0', '1/4', '1/2']], ['call', 1, 0, False],
                                                       ['call', 1, 0, False], ['call', 1, 0, True]], 'dur': '1'})
+    cases += shadow_histories(rng, 6 if tier == 'quick' else 60)
+    cases += gen_dec_cases(rng, tier)
     return cases
+
+
+def shadow_histories(rng, n):
+    """Chain(Parallel{P}, Linear{X,Y -> P}) (+ scaling): sampling a forwarded channel first leaves the parallel constant
+    for P in the cache (by-product), a later request for P on the same array is answered from it"""
+    out = []
+    for _ in range(n):
+        dur = rng.choice([2, 4]) * Q4
+        z, x, y, p = rng.sample([1, 2, 3, 4], 4)
+        inner = ['multi', False, [gen_leaf(rng, c, dur) for c in (x, y, z)]]
+        chain = [['parallel', [[p, gen_tval(rng, False)]]], ['linear', [x, y], [p], [[fs(rng.choice([F(1), F(-1), F(2)])) for _ in (x, y)]]]]
+        if rng.random() < 0.4:
+            chain.append(['scale', [[p, ['c', '2']]]])
+        r = ['trans', False, inner, ['chain', chain]]
+        if rng.random() < 0.3:
+            r = ['functor', False, r, [[z, 'neg'], [p, 'abs']]]
+        g = [fs(t) for t in sorted(rng.sample([i * F(1, 16) for i in range(1, 4 * int(dur / Q4))], 3))]
+        first, second = (z, p) if rng.random() < 0.8 else (p, z)
+        ops = [['set', 0, g], ['call', first, 0, False], ['call', second, 0, rng.random() < 0.5], ['call', first, 0, False]]
+        out.append({'kind': 'hist', 'r': r, 'ops': ops, 'dur': fs(dur)})
+    return out
 
 
 def history_seeds():
@@ -998,7 +1161,7 @@ def histogram_keys(case, obs):
     k = case['kind']
     r = case.get('r') or case.get('r1')
     keys = [k, 'depth:%d' % rdepth(r), 'root:%s' % r[0]]
-    if k == 'sample':
+    if k in ('sample', 'dec'):
         keys.append('grid:%s' % case['grid_kind'])
         keys.append('build:' + ('error:' + obs['err'] if 'err' in obs else 'crash' if 'crash' in obs else 'ok'))
         if 'built' in obs:
@@ -1025,6 +1188,10 @@ def classify(case, obs):
     """id of the known finding a failing case belongs to (see known_findings.d/C08.json), else None"""
     k = case['kind']
     r = case.get('r') or case.get('r1')
+    if k == 'dec':
+        return 'C08-nested-junction-float-rounding' if _nested_composite(r) else None
+    if k == 'hist' and _shadowed_linear_after_producer(r) and not _hist_inplace(case):
+        return 'C08-trafo-cache-shadowed-byproduct'
     if k == 'sample' and has_kind(r, COMPOSITE) and 'built' in obs:
         dur = F(obs['built']['dur'])
         grid = [F(t) for t in case['grid']]
@@ -1045,6 +1212,34 @@ def classify(case, obs):
     if k == 'eq' and obs.get('built') and obs.get('eq') and obs.get('hash_eq') is None and has_kind(r, ('functor', 'neg')):
         return 'C08-functor-unhashable'
     return None
+
+
+def _nested_composite(r, inside=False):
+    """an INNER junction exists: a sequence / repetition, or a table with more than two entries, below a sequence /
+    repetition (the local times of the inner one are float differences)"""
+    if not isinstance(r, list):
+        return False
+    here = bool(r) and r[0] in COMPOSITE
+    if inside and (here or (bool(r) and r[0] == 'table' and len(r[3]) > 2)):
+        return True
+    return any(_nested_composite(x, inside or here) for x in r if isinstance(x, list))
+
+
+def _shadowed_linear_after_producer(r):
+    """a chain in which a LinearTransformation has an output channel that an EARLIER stage can deliver as a by-product
+    (a parallel-channel constant or an output of an earlier linear stage)"""
+    if not isinstance(r, list):
+        return False
+    if r and r[0] == 'chain':
+        made = set()
+        for x in r[1]:
+            if x[0] == 'linear' and made & set(x[2]):
+                return True
+            if x[0] == 'parallel':
+                made |= {c for c, _ in x[1]}
+            if x[0] == 'linear':
+                made |= set(x[2])
+    return any(_shadowed_linear_after_producer(x) for x in r if isinstance(x, list))
 
 
 def _table_final_triple(r):
